@@ -32,7 +32,7 @@ MODES = ['sym', 'num', 'arr', 'reslike', 'reslike-num']
 def floors(tier):
     f = {'distinct_nontrivial': 600 if tier == 'quick' else 60000, 'homomorphism_blade_pairs': 20000, 'first_column_checks': 1500,
          'frommatrix_round_trips': 300, 'linearity_checks': 300, 'rank_checks': 80, 'expr_cases': 300,
-         'custom_basis_algebras': 20, 'signature_orderings': 60, 'dense_layout_operands': 60, 'shared_symbol_inputs': 30}
+         'custom_basis_algebras': 20, 'signature_orderings': 60, 'dense_layout_operands': 60, 'shared_symbol_inputs': 30, 'exact_product_matrices_compared': 100}
     for m in MODES:
         f['expr_mode_' + m] = 40
     return f
@@ -133,7 +133,7 @@ def asmatrix_unit(ctx, unit):
     # linearity and frommatrix on random multivectors of several coefficient kinds
     from kingdon.multivector import MultiVector
     canon = tuple(alg.canon2bin.values())
-    for kind in ('frac', 'float', 'array', 'sympy'):
+    for kind in ('frac', 'float', 'array', 'sympy', 'int'):
         cid = [name, 'linear+frommatrix', kind]
         if not ctx.want(cid):
             continue
@@ -151,6 +151,8 @@ def asmatrix_unit(ctx, unit):
         def val(i):
             if kind == 'frac':
                 return gen.small_frac(rng, nonzero=True)
+            if kind == 'int':
+                return rng.choice((1, -1)) * rng.randint(100, 4000)      # plain Python ints, products far outside any narrow integer type
             if kind == 'float':
                 return gen.dyadic(rng) + 0.125
             if kind == 'array':
@@ -164,13 +166,26 @@ def asmatrix_unit(ctx, unit):
             Mx, My = x.asmatrix(), y.asmatrix()
             Ms = (lam * x + mu * y).asmatrix()
             back = MultiVector.frommatrix(alg, Mx) if kind != 'array' else None
-            return Mx, My, Ms, back
+            Mp = (x * y).asmatrix() if kind in ('int', 'frac') else None
+            return Mx, My, Ms, back, Mp
         st, out = ctx.guarded(60, work)
         if st != 'ok':
             if st == 'exc':
                 ctx.note_raised(out, 'asmatrix-' + kind)
             continue
-        Mx, My, Ms, back = out
+        Mx, My, Ms, back, Mp = out
+        if Mp is not None:
+            # multiplicativity on the multivectors themselves, in exact arithmetic
+            try:
+                A_, B_, P_ = (np.array(m, dtype=object) for m in (Mx, My, Mp))
+                if P_.shape == ():
+                    P_ = np.zeros(A_.shape, dtype=object) + P_      # the empty product: asmatrix() of the empty multivector is the number 0
+                if not np.array_equal(A_.dot(B_), P_):
+                    ctx.violation('asmatrix(x*y) != asmatrix(x) @ asmatrix(y) for integer / rational coefficients', cid + ['product'], config=cfg,
+                                  keys=[list(kx), list(ky)], values=[[str(v) for v in x.values()], [str(v) for v in y.values()]], mechanism_hint=hint)
+                ctx.count('exact_product_matrices_compared')
+            except Exception as e:
+                ctx.note_raised(e, 'exact-matmul')
         ctx.count('linearity_checks')
         ctx.case(cid)
         ok = True
